@@ -12,8 +12,14 @@ RULE = ('real compute_features_3d / BycycleGroup.fit for every shape (n0, n1) in
         'dimensions) x the three axis modes x {shared dict through the function, shared dict through the object, 1-D per-slice '
         'list / 2-D per-signal list of pairwise different option sets} (enumerated), plus the option argument not given (None) '
         'for one axis mode per shape (all in thorough); some dicts carry a "return_samples" entry (documented as ignored); '
-        'return_samples=False for about 40 % of the axis=(0,1) cases; C-ordered / Fortran-ordered / transposed-view arrays, '
-        'n_jobs in {1, 2, 3, 4}, perturbed completion orders (observed and logged); every returned table matched against candidates '
+        'the small option space return_samples {True, False} x {no progress bar, tqdm / tqdm.notebook through the in-process '
+        'stand-in} x {n_jobs = 1, 2-4 jobs} is a covering design, not three coin flips: inside every (option form + entry point, '
+        'axis) cell of the grid the shapes cycle through a shuffled list of all 8 combinations, and a second block crosses arrays '
+        'that give ONE pool task (n0 = 1 for axis 0, n1 = 1 for axis 1, a single signal for axis (0,1)) with entry point and option '
+        'form (5) x axis (3) x return_samples x bar on fresh objects / plain calls (job class: a parity function in quick, both '
+        'in thorough; evidence: option_space_cells_covered); return_samples is given for every axis mode and the reference is '
+        'computed with the SAME flag (column set included); C-ordered / Fortran-ordered / transposed-view arrays, '
+        'perturbed completion orders (observed and logged); every returned table matched against candidates '
         'computed directly (compute_features for axis=(0,1); compute_features_2d(axis=None) of every row / column slice for axis '
         '0 / 1); placement matrix compared with the model, evaluated on the observed completion order; option dictionaries '
         '(and their nested dictionaries) are passed with a shuffled insertion order; through the object, about 60 % of the '
@@ -35,9 +41,14 @@ ASSUMPTIONS = ['the statement about BycycleGroup.fit is applied to every call of
                'the options of a BycycleGroup fit are the values its settings attributes hold when fit is called (the '
                'constructor\'s, or what the user assigned to the attribute since); every assignment block leaves a valid '
                'combination (a change of burst_method comes with matching thresholds)',
-               'reference tables for axis 0 / 1 are produced by compute_features_2d(axis=None) itself (placement, not content, is checked here)']
+               'reference tables for axis 0 / 1 are produced by compute_features_2d(axis=None) itself (placement, not content, is checked here), '
+               'called with the return_samples of the judged call: "the flattened-epoch analysis of sigs[i]" is read as that call with the '
+               'same options',
+               'the progress wrapper is exercised with a stand-in tqdm (iterates the wrapped iterable unchanged); the real tqdm package is outside the check']
 TRUST = ['Pool.imap is modelled as a reorder buffer keyed by submission index']
 AXV = {0: 0, 1: 1, 2: (0, 1)}
+COVER = {}          # cell of the option space -> number of cases run in it
+PROGRESS = {'cases_with_progress': 0, 'stub_wrapped_the_result_iterator': 0}
 
 
 def _mode(c):
@@ -46,7 +57,9 @@ def _mode(c):
     return 'list' if c.get('kw') is not None else 'dict'
 
 
-def _one(rng, n0, n1, ax, mode, via):
+def _one(rng, n0, n1, ax, mode, via, opts=None, fresh=False):
+    """opts: (return_samples, progress bar?, one job?) fixed by the caller (covering design) instead of drawn;
+    fresh: a plain call / a fresh object (no earlier fits, no re-assignments)."""
     if mode != 'list':
         kw = None
     elif ax == 2:
@@ -60,20 +73,75 @@ def _one(rng, n0, n1, ax, mode, via):
     if via == 'group':
         rs_key = [None] * n_entries
     shared = rng.randrange(len(gl.KW_POOL))
-    # the flag is forwarded for axis=(0,1) only; the flattened-epoch analysis always keeps the sample columns
-    return_samples = (rng.random() >= 0.4) if ax == 2 else True
+    # return_samples is given for every axis mode; the reference is the per-signal / flattened-epoch analysis with the SAME flag
+    return_samples = rng.random() >= 0.4
+    progress = rng.choice([None, None, 'tqdm', 'tqdm.notebook'])
+    n_jobs = rng.choice([1, 2, 3, 4])
+    if opts is not None:
+        return_samples = bool(opts[0])
+        progress = (progress or 'tqdm') if opts[1] else None
+        n_jobs = 1 if opts[2] else (n_jobs if n_jobs > 1 else rng.choice([2, 3, 4]))
     history = (gl.gen_history(rng, (n0, n1), mode, shared, return_samples)
                if via == 'group' and mode != 'list' and rng.random() < 0.6 else [])
+    if fresh:
+        history = []
     return {'kind': 'g3d/ax%d/%s' % (ax, mode), 'n0': n0, 'n1': n1, 'ax': ax, 'kwmode': mode, 'kw': kw,
             'history': history, 'kseed': rng.randrange(10 ** 6),
             'shared': shared, 'rs_key': rs_key,
-            'sig_ids': rng.sample(range(40), n0 * n1), 'n_jobs': rng.choice([1, 2, 3, 4]),
+            'sig_ids': rng.sample(range(40), n0 * n1), 'n_jobs': n_jobs, 'progress': progress,
             'schedule': rng.choice(['reverse', 'first_slow', 'zigzag', 'none']), 'via': via,
             'return_samples': return_samples, 'layout': rng.choice(['C', 'C', 'F', 'view'])}
 
 
+OPTS8 = [(rs, bar, one_job) for rs in (True, False) for bar in (False, True) for one_job in (True, False)]
+ENTRIES = [('dict', 'func'), ('list', 'func'), ('none', 'func'), ('dict', 'group'), ('none', 'group')]
+
+
+def n_tasks(c):
+    return {0: c['n0'], 1: c['n1'], 2: c['n0'] * c['n1']}[c['ax']]
+
+
+def cover_key(c):
+    """Cell of the small option space: (entry point + option form, axis mode, one pool task / several,
+    return_samples, progress bar or not, one job / several jobs)."""
+    mode = _mode(c)
+    via = 'func' if mode == 'list' else c['via']
+    return (via + '/' + mode, 'ax%d' % c['ax'], 'one-task' if n_tasks(c) == 1 else 'tasks', bool(c.get('return_samples', True)),
+            'bar' if c.get('progress') else 'nobar', 'one' if c['n_jobs'] == 1 else 'several')
+
+
+def _cover_one_task(rng, tier):
+    """Arrays that give ONE pool task (n0 = 1 for axis 0, n1 = 1 for axis 1, one signal for axis (0, 1)) crossed with the
+    whole small option space: entry point and option form (5) x axis mode (3) x return_samples x {no bar, a tqdm bar} x
+    {n_jobs = 1, several}: the full product in thorough; in quick the job class is a parity function of the other two binary
+    options and the cell index (every pair of options with every entry point and axis, every job class with every
+    (entry, axis, return_samples) and (entry, axis, bar)), on fresh objects / plain calls."""
+    out = []
+    q = 0
+    for mode, via in ENTRIES:
+        for ax in (0, 1, 2):
+            q += 1
+            for rs in (True, False):
+                for bar in (False, True):
+                    for one_job in ((True, False) if tier != 'quick' else (bool((rs + bar + q) % 2),)):
+                        other = rng.choice([1, 1, 2, 3])
+                        n0, n1 = {0: (1, other), 1: (other, 1), 2: (1, 1)}[ax]
+                        c = _one(rng, n0, n1, ax, mode, via, (rs, bar, one_job), fresh=True)
+                        c['cover'] = True
+                        out.append(c)
+    return out
+
+
 def cases(rng, tier):
     out = []
+    # (return_samples, bar, one job) of the enumerated grid: per (option form + entry point, axis) cell a shuffled cycle
+    # through all 8 combinations, so that the 9 shapes of a cell see every combination (a covering design, not 3 coin flips)
+    cyc = {}
+
+    def next_opts(cell):
+        if not cyc.get(cell):
+            cyc[cell] = rng.sample(OPTS8, len(OPTS8))
+        return cyc[cell].pop()
     for n0 in (1, 2, 3):
         for n1 in (1, 2, 3):
             none_ax = rng.randrange(3)
@@ -83,9 +151,10 @@ def cases(rng, tier):
                     combos.append(('none', rng.choice(['func', 'func', 'group'])))
                 for mode, via in combos:
                     for rep in range(1 if tier == 'quick' else 2):
-                        c = _one(rng, n0, n1, ax, mode, via)
+                        c = _one(rng, n0, n1, ax, mode, via, next_opts((mode, via, ax)))
                         if c:
                             out.append(c)
+    out.extend(_cover_one_task(rng, tier))
     return out
 
 
@@ -145,7 +214,10 @@ def run_impl(c):
     out = {}
     err = None
     bg = None
-    orig = None
+    orig = stub = None
+    progress = c.get('progress')
+    ck = '%s %s %s return_samples=%s %s jobs:%s' % cover_key(c)
+    COVER[ck] = COVER.get(ck, 0) + 1
     try:
         with contextlib.redirect_stdout(io.StringIO()):
             if c['via'] == 'group':
@@ -159,10 +231,17 @@ def run_impl(c):
                                       find_extrema_kwargs=kw.get('find_extrema_kwargs'), return_samples=rs)
                 # earlier fits of the SAME object on arrays of another shape, re-assignments of its settings attributes
                 gl.run_history(bg, c.get('history'), krng)
+            stub = gl.ProgressStub().install() if progress else None
             orig = gl.install_delays(tasks, c['schedule'])
             if c['via'] == 'group':
-                bg.fit(sigs, gl.FS, gl.FR, axis=AXV[ax], n_jobs=c['n_jobs'])
+                if progress:
+                    bg.fit(sigs, gl.FS, gl.FR, axis=AXV[ax], n_jobs=c['n_jobs'], progress=progress)
+                else:
+                    bg.fit(sigs, gl.FS, gl.FR, axis=AXV[ax], n_jobs=c['n_jobs'])
                 dfs = bg.df_features
+            elif progress:
+                dfs = compute_features_3d(sigs, gl.FS, gl.FR, compute_features_kwargs=kwobj, axis=AXV[ax], n_jobs=c['n_jobs'],
+                                          return_samples=rs, progress=progress)
             else:
                 dfs = compute_features_3d(sigs, gl.FS, gl.FR, compute_features_kwargs=kwobj, axis=AXV[ax], n_jobs=c['n_jobs'],
                                           return_samples=rs)
@@ -170,6 +249,11 @@ def run_impl(c):
         err = {'err': exc_kind(e), 'msg': str(e)[:200]}
     finally:
         out['completion'] = gl.uninstall(orig, c['schedule']) if orig is not None or gl._LOG[0] is not None else None
+        pbar = stub.uninstall() if stub is not None else None
+    if pbar is not None:
+        out['pbar'] = pbar
+        PROGRESS['cases_with_progress'] += 1
+        PROGRESS['stub_wrapped_the_result_iterator'] += bool(pbar['calls'])
     if err is not None:
         out.update(err)
         return out
@@ -204,10 +288,12 @@ def run_impl(c):
                      [(_sid([i * n1 + j for i in range(n0)]), sigs[:, j]) for j in range(n1)]
             for first_id, sl in slices:
                 try:
+                    # the flattened-epoch analysis of the slice alone, with the same return_samples as the judged call
                     if kw is None:
-                        eps = compute_features_2d(np.array(sl), gl.FS, gl.FR, axis=None)
+                        eps = compute_features_2d(np.array(sl), gl.FS, gl.FR, axis=None, return_samples=rs_v)
                     else:
-                        eps = compute_features_2d(np.array(sl), gl.FS, gl.FR, compute_features_kwargs=dict(kw), axis=None)
+                        eps = compute_features_2d(np.array(sl), gl.FS, gl.FR, compute_features_kwargs=dict(kw), axis=None,
+                                                  return_samples=rs_v)
                 except Exception as e:
                     # the flattened-epoch analysis of this slice itself fails: kept, and named by the oracle if that slice is needed
                     ref_errors.append([aid, first_id, exc_kind(e), str(e)[:120]])
@@ -225,6 +311,8 @@ def run_impl(c):
             for j in range(n1):
                 df = dfs[i][j]
                 row.append(gl.match(df, cands, tuple(want[i][j])) if hasattr(df, 'columns') else [gl.MISSING] * 3)
+                if row[-1][0] == gl.MISSING and 'unmatched' not in out:
+                    out['unmatched'] = 'the table at [%d][%d]: %s' % (i, j, gl.explain(df, cands, tuple(want[i][j])))
             placement.append(row)
     out['placement'] = placement
     if bg is not None:
@@ -261,8 +349,11 @@ def oracle(c, o):
                     if [aid, first_id] == want[i][j][:2]:
                         return ('entry [%d][%d] is a table, but the flattened-epoch analysis of that slice alone (compute_features_2d, '
                                 'axis=None, same options) raised %s (%s)' % (i, j, kind, msg))
-                return 'entry [%d][%d] holds (options, slice/signal, epoch) = %s, expected %s%s' % (
+                return 'entry [%d][%d] holds (options, slice/signal, epoch) = %s, expected %s%s%s' % (
                     i, j, o['placement'][i][j], want[i][j],
+                    ' (%d = no reference table matches: %s; return_samples=%s%s)' % (
+                        gl.MISSING, o['unmatched'], c.get('return_samples', True), ', progress=%s' % c['progress'] if c.get('progress') else '')
+                    if o['placement'][i][j][0] == gl.MISSING and o.get('unmatched') else '',
                     ' [BycycleGroup.fit%s; option ids: %d / %d = the constructor\'s, 1001.. = after the n-th assignment block]'
                     % (gl.history_note(c.get('history')), gl.SHARED_ID, gl.NONE_ID) if gl.n_reassign(c.get('history')) else '')
     if 'object' in o:
@@ -283,7 +374,9 @@ def kind_of(c, o):
 
 
 def extra_evidence():
-    return {'completion_order_observed': dict(gl.STATS)}
+    one = [k for k in COVER if ' one-task ' in k]
+    return {'completion_order_observed': dict(gl.STATS), 'progress_wrapper': dict(PROGRESS),
+            'option_space_cells_covered': '%d of 240 (one pool task: %d of 120)' % (len(COVER), len(one))}
 
 
 def coq_case(c, o):
